@@ -706,11 +706,15 @@ def run(tier):
         c.notif("textDocument/didSave", {"textDocument": {"uri": uris[0]}}, uri=uris[0], op="save")
         c.req("initialize", {"capabilities": {}})
         convs.append((c, uris, {"freeze": True, "reset_at": resets}))
-    inp = "".join(json.dumps(dict(frames=[hx(frame(m["body"])) for m in c.msgs], uris=uris, **opt)) + "\n" for c, uris, opt in convs)
-    p = common.vh(["lspserve"], input=inp, timeout=1800)
-    cr = [json.loads(l) for l in p.stdout.splitlines() if l.strip()]
-    if p.returncode != 0 or len(cr) != len(convs):
-        rp.violation({"kind": "harness", "cmd": "lspserve", "detail": p.stderr[-2000:], "got": len(cr)}, "lspserve_harness", no_input=True)
+    cr, died = serve_batch([json.dumps(dict(frames=[hx(frame(m["body"])) for m in c.msgs], uris=uris, **opt)) + "\n" for c, uris, opt in convs])
+    for di, first, detail in died[:3]:
+        c, uris, opt = convs[di]
+        rp.violation({"kind": "oracle", "family": "conversation", "frames": [hx(frame(m["body"])) for m in c.msgs], "uris": uris, "opt": opt,
+                      "messages": [m["body"].decode("utf-8", "replace") for m in c.msgs], "problem": {"class": "died", "what": "the server process was killed: " + first},
+                      "detail": detail, "explanation": "conversation with a real Server: the process was killed (%s) — no client message may terminate the server" % first},
+                     "conversation_died_%d" % di)
+    if len(cr) != len(convs):
+        rp.violation({"kind": "harness", "cmd": "lspserve", "got": len(cr), "want": len(convs)}, "lspserve_harness", no_input=True)
         cr = []
     serve_terms, serve_src = [], []
     nviol = 0
@@ -1249,7 +1253,7 @@ def oversize_probe():
     ]
     frames = [frame(json.dumps(m, ensure_ascii=False)) for m in msgs]
     p = common.vh(["lspserve"], input=json.dumps({"frames": [hx(f) for f in frames], "uris": [u]}) + "\n", timeout=600)
-    r = json.loads(p.stdout.splitlines()[0])
+    r = first_row(p)
     probs = []
     if r.get("panic") or not r.get("returned"):
         probs.append({"class": "died", "what": "oversize document: server died: %s" % r.get("panic")})
@@ -1285,7 +1289,7 @@ def id_probe():
     from decimal import Decimal
     frames = [frame('{"jsonrpc":"2.0","id":%s,"method":"textDocument/documentSymbol","params":{"textDocument":{"uri":"x"}}}' % r) for r in RAW_IDS]
     p = common.vh(["lspserve"], input=json.dumps({"frames": [hx(f) for f in frames], "uris": []}) + "\n")
-    r = json.loads(p.stdout.splitlines()[0])
+    r = first_row(p)
     probs = []
     if r.get("panic") or not r.get("returned"):
         probs.append({"class": "died", "what": "id probe: server died: %s" % r.get("panic")})
@@ -1319,6 +1323,42 @@ def matches_known(prob, known_sigs):
     return None
 
 
+class _Died(dict):
+    """result row standing for a harness process that died while serving this input"""
+
+
+def first_row(p):
+    """first JSON line of a harness run; a process that died (panic in a goroutine nobody recovers, fatal error) yields
+    a row that says so instead of an exception in the check"""
+    lines = [l for l in p.stdout.splitlines() if l.strip()]
+    if lines:
+        return json.loads(lines[0])
+    m = re.search(r"(?m)^(panic: .*|fatal error: .*)$", p.stderr or "")
+    return _Died(panic="process died: " + (m.group(1) if m else "exit %s" % p.returncode), returned=False, snapshots=[], items=[{"panic": "process died"}], got=None)
+
+
+def serve_batch(lines, timeout=1800):
+    """run the lspserve harness over many conversations; when the process dies on one of them (a panic outside every
+    recover kills the harness exactly as it would kill the language server), that conversation gets a 'died' row and
+    the rest is run in a new process"""
+    rows, i, died = [], 0, []
+    while i < len(lines):
+        p = common.vh(["lspserve"], input="".join(lines[i:]), timeout=timeout)
+        got = [json.loads(l) for l in p.stdout.splitlines() if l.strip()]
+        rows += got
+        i += len(got)
+        if i < len(lines) and (p.returncode != 0 or not got):
+            m = re.search(r"(?m)^(panic: .*|fatal error: .*)$", p.stderr or "")
+            died.append((i, (m.group(1) if m else "exit %s" % p.returncode), (p.stderr or "")[:1500]))
+            rows.append(_Died(panic="process died: " + (m.group(1) if m else "exit %s" % p.returncode), returned=False, snapshots=[]))
+            i += 1
+            if len(died) > 5:
+                break
+        elif not got:
+            break
+    return rows, died
+
+
 def witness_fails(w):
     """re-execute a witness (or each of a list) against the implementation; returns (fails, detail)"""
     if isinstance(w, list):
@@ -1327,18 +1367,18 @@ def witness_fails(w):
     kind = w.get("kind")
     if kind == "edit":
         p = common.vh(["lspedit"], input=json.dumps({"doc": w["doc"], "range": w["range"], "text": w["text"]}) + "\n")
-        r = json.loads(p.stdout.splitlines()[0])
+        r = first_row(p)
         want = [x.encode().hex() for x in oracle_apply(bytes.fromhex(w["doc"]).decode(), w["range"], bytes.fromhex(w["text"]).decode())]
         ok = (not r.get("panic")) and r["got"] in want
         return (not ok), ("panic: " + r["panic"]) if r.get("panic") else "got %s want %s" % (r["got"], want)
     if kind == "frames":
         p = common.vh(["lspframes"], input=json.dumps({"stream": w["stream"]}) + "\n")
-        r = json.loads(p.stdout.splitlines()[0])
+        r = first_row(p)
         bad = [it for it in r["items"] if "panic" in it]
         return bool(bad), json.dumps(bad)[:300]
     if kind == "conversation":
         p = common.vh(["lspserve"], input=json.dumps({"frames": w["frames"], "uris": w.get("uris", [])}) + "\n")
-        r = json.loads(p.stdout.splitlines()[0])
+        r = first_row(p)
         out = b"".join(bytes.fromhex(sn["out"]) for sn in r["snapshots"])
         msgs, err = parse_out(out)
         problems = []
@@ -1392,7 +1432,7 @@ def replay(path):
     if fam in ("conversation", "stream"):
         opt = d.get("opt") or {}
         p = common.vh(["lspserve"], input=json.dumps({"frames": d["frames"], "uris": d.get("uris", []), **{k: v for k, v in opt.items() if k in ("freeze", "reset_at")}}) + "\n")
-        r = json.loads(p.stdout.splitlines()[0])
+        r = first_row(p)
         c = Conv.from_json(d["conv"]) if d.get("conv") else Conv()
         stats = {"requests": 0, "responses": 0, "notifications": 0, "publish": 0, "diagnostics": 0, "edits": 0, "dropped": 0}
         if fam == "conversation" and d.get("conv"):
